@@ -118,6 +118,12 @@ __attribute__((constructor)) static void trusim_init(void) {
         }
     }
     if (plan) parse_plan(plan);
+    /* `command > file`: the driver opened a sandbox file as fd 1; treat it as a tracked output */
+    const char *so = getenv("TRUSIM_STDOUT");
+    if (so && *so && g_active) {
+        g_tracked[1] = 1;
+        strncpy(g_paths[1], so, sizeof g_paths[1] - 1);
+    }
     /* resource monitors: set here (not by the driver's pre_exec) so that the driver can use posix_spawn */
     const char *cpu = getenv("TRUSIM_CPU_S");
     const char *as = getenv("TRUSIM_AS_BYTES");
